@@ -306,7 +306,7 @@ func (e *Engine) applyCond(s *fstate, r AV, v ssa.Value, cond ssa.Value, branch 
 				}
 				m.Taint = r.Taint
 				m.Raw = r.Raw
-				m.Exact = m.Exact && cs[i].Exact
+				m.Exact = r.Exact && cs[i].Exact
 				if !cs[i].SanLo && !cs[i].SanHi && e.opaqueParam(sc, i) {
 					// the checker looks at the value in a way that is not followed (copied into an array
 					// it loops over, handed to further code): some test was applied, which one is unknown
